@@ -300,10 +300,11 @@ func H_life_r() {
 			}
 		case 3: // Size
 			sz := zr.Size()
-			if started && o.sizeopt != 0 {
+			hasSize := o.sizeopt != 0 && o.legacy == 0 // a legacy frame has no content-size field
+			if started && hasSize {
 				vfAssert("r-size-faithful", uint64(sz) == o.size)
 			}
-			if o.sizeopt == 0 {
+			if !hasSize {
 				vfAssert("r-size-zero-when-absent", sz == 0)
 			}
 		case 4: // Reset(new source holding the other frame)
